@@ -285,6 +285,50 @@ def rule_shared_mutables(run, prog):
                        f"{fn.qual} mutates class-level state {d}: " + "; ".join(w for _, w in ps[:3]), ps[0][0])
 
 
+ITERATOR_MAKERS = {"map", "filter", "zip", "iter", "reversed", "enumerate", "open", "itertools.chain", "itertools.count",
+                   "itertools.cycle", "itertools.filterfalse", "itertools.islice"}
+
+
+def rule_one_shot(run, prog):
+    run.rule("R-6.1b", "no one-shot object at import level: a module-level or class-level name bound to an iterator "
+             "(map / filter / zip / iter / generator expression / open ...) is consumed by its first use, so that every "
+             "later use in the process sees something else", floor=0)
+    # positive self-test of the detector (the expected count on the repository is zero)
+    probe = ast.parse("kw = map(str.upper, names)\ngen = (x for x in names)\nok = tuple(map(str.upper, names))\n")
+    hits = [st.targets[0].id for st in probe.body if isinstance(st.value, ast.GeneratorExp) or
+            (isinstance(st.value, ast.Call) and text(st.value.func) in ITERATOR_MAKERS)]
+    run.require(hits == ["kw", "gen"], "self-test of the one-shot-iterator detector failed")
+    n = 0
+    for rel, mod in sorted(prog.mods.items()):
+        if rel == "__main__.py":
+            continue
+        binds = []
+        for name, vals in mod.assigns.items():
+            for v in vals:
+                if isinstance(v, ast.GeneratorExp) or (isinstance(v, ast.Call) and text(v.func) in ITERATOR_MAKERS):
+                    binds.append((name, v))
+        for c in mod.classes.values():
+            for name, v in c.attrs.items():
+                if isinstance(v, ast.GeneratorExp) or (isinstance(v, ast.Call) and text(v.func) in ITERATOR_MAKERS):
+                    binds.append((f"{c.name}.{name}", v))
+        for name, v in binds:
+            n += 1
+            users = []
+            short = name.split(".")[-1]
+            for fn in prog.fns:
+                for x in walk_fn(fn.node):
+                    if isinstance(x, ast.Name) and x.id == short and isinstance(x.ctx, ast.Load) and (
+                            fn.mod is mod or (short in fn.mod.imports and fn.mod.imports[short][0] == mod.dotted)):
+                        users.append(fn.key)
+                    if isinstance(x, ast.Attribute) and x.attr == short and "." in name:
+                        users.append(fn.key)
+            run.ob("R-6.1b", f"{rel}::{name}::one-shot", not users,
+                   f"`{name} = {text(v, 50)}` is a one-shot iterator created at import time and used in {sorted(set(users))[:3]}: "
+                   f"the first statement that consumes it gets all its elements, every later one (same file or next file) none",
+                   v)
+    run.note(f"R-6.1b: {n} import-level iterator binding(s) found")
+
+
 def rule_class_state(run, prog):
     run.rule("R-6.2", "run-time stores on class objects / module globals are exactly the known, per-activation-rewritten "
              "ones (Rule.__new__: context, name = cls.__name__; Rules singleton); Rule instances are created only by "
@@ -586,6 +630,7 @@ def rule_ambient(run, prog):
 
 def check(run, prog):
     rule_shared_mutables(run, prog)
+    rule_one_shot(run, prog)
     rule_class_state(run, prog)
     rule_fresh(run, prog)
     rule_order(run, prog)
